@@ -12,7 +12,7 @@ from proto import ET, dec_tens, proj_close, proj_close_nn, run_driver
 from trlib import TM, fdet, proj_equal_positions, rand_matrix
 
 ID = "C08"
-LEAN_FILES = ["Geo/Props/C08.lean"]
+LEAN_FILES = ["Geo/Props/C08.lean", "Geo/Props/C08b.lean"]
 RULE = ("translation / scaling with offsets given as numbers and as points of any homogeneous scale (negative too); rotation(a) and "
         "rotation(a, axis) with Pythagorean (cos, sin) and rational unit axes in all octants (axis points of any scale): compared with "
         "the exact model matrix (Rodrigues as written in the code), orthogonality, det 1, axis fixed, trace, R(a)R(b)=R(a+b), sense in "
@@ -102,6 +102,34 @@ def affine_stream(ctx, n):
             d = gen.point(dim, cplx=False, inf=True)
             if not proj_close_nn(d.data.cnumpy(), (T * d.impl()).array):
                 ctx.disagree("C08:translation:infinity", desc + f" d={d}", d, np.asarray((T * d.impl()).array).tolist(), replay=[desc])
+
+
+def complex_affine_stream(ctx, n):
+    """translation / scaling / affine_transform with complex numbers (complex points are first-class: intersections of circles,
+    I and J): p -> p + v and coordinate-wise multiplication must hold for complex v as well"""
+    import geometer as g
+    rng = ctx.rng
+    for k in range(n):
+        dim = rng.choice([2, 3])
+        v = [complex(rng.randint(-3, 3), rng.choice([0, 1, -2, 3])) for _ in range(dim)]
+        if not any(z.imag for z in v):
+            v[rng.randrange(dim)] += 1j
+        p = np.array([complex(rng.randint(-4, 4), rng.choice([0, 0, 1, -1])) for _ in range(dim)])
+        how = k % 3
+        if how == 0:
+            f, exp, desc = (lambda: g.translation(*v) * g.Point(*p)), p + np.array(v), f"translation{tuple(v)} * Point{tuple(p)}"
+        elif how == 1:
+            fs = [z if z != 0 else 1 + 1j for z in v]
+            f, exp, desc = (lambda: g.scaling(*fs) * g.Point(*p)), p * np.array(fs), f"scaling{tuple(fs)} * Point{tuple(p)}"
+        else:
+            m = np.eye(dim, dtype=complex) * (1 + 1j)
+            f, exp, desc = (lambda: g.affine_transform(m, np.array(v)) * g.Point(*p)), (1 + 1j) * p + np.array(v), f"affine_transform((1+i)·1, {v}) * Point{tuple(p)}"
+        ctx.case(desc)
+        ctx.count("complex-affine:" + ("translation", "scaling", "affine")[how])
+        r = call_impl(f)
+        if r[0] != "ok" or not proj_close_nn(np.append(exp, 1.0), r[1].array):
+            ctx.disagree("C08:complex-affine:" + ("translation", "scaling", "affine")[how], desc, np.append(exp, 1.0).tolist(),
+                         r[1:3] if r[0] != "ok" else np.asarray(r[1].array).tolist(), replay=[desc])
 
 
 def rotation_stream(ctx, n):
@@ -280,6 +308,7 @@ def conics_stream(ctx, n):
 
 
 def correspondence(ctx):
+    complex_affine_stream(ctx, ctx.budget(45, 450))
     affine_stream(ctx, ctx.budget(120, 2000))
     rotation_stream(ctx, ctx.budget(150, 2500))
     reflection_stream(ctx, ctx.budget(100, 1500))
